@@ -63,7 +63,7 @@ def build(ck):
 # ------------------------------------------------------------------ scenarios
 def gen_batch(rng, t, big):
     mode = "W" if rng.chance(1, 5) else "N"
-    sev = rng.choice("n0STTS")
+    sev = rng.choice("n0STTSBB")
     r = rng.below(10)
     if r < 3:
         n = rng.choice([1, 2, 3])
@@ -296,8 +296,12 @@ def run(ck):
                        "pthread mutex/cond semantics (mutual exclusion, atomic release-and-wait, wake-ups possibly spurious)",
                        "each gaicb is submitted once (fresh request objects per batch)",
                        "allocation failure paths (EAI_MEMORY) are property C10's, not exercised here"]
+    ck.cov["monitored_frame_conditions"] = [
+        "the calling thread's signal mask (non-trivial: SIGUSR2, SIGRTMIN+14 and the signos of its blocked+sigtimedwait "
+        "batches blocked) is identical before and after EVERY getaddrinfo_a call, including the first GAI_NOWAIT call of each "
+        "fresh process (the one that creates the resolver context) and calls made from callbacks; not part of the Lean model"]
     ck.cov["rule"] = ("a case = one scenario (1..4 submitter threads started together, 1..6 getaddrinfo_a calls each, batches of "
-                      "1..16 numeric-host requests, GAI_WAIT/GAI_NOWAIT, sevp NULL/SIGEV_NONE/SIGEV_SIGNAL/SIGEV_THREAD, callbacks that submit a follow-up batch, "
+                      "1..16 numeric-host requests, GAI_WAIT/GAI_NOWAIT, sevp NULL/SIGEV_NONE/SIGEV_SIGNAL (handler, or blocked + sigtimedwait)/SIGEV_THREAD, callbacks that submit a follow-up batch, "
                       "perturbation level 0..3) executed once under a seeded perturbed schedule in a fresh process and its event "
                       "trace validated against the model; distinct = distinct scenario shape (threads, multiset of (mode, sev, size)); "
                       "non-trivial = contains a GAI_NOWAIT batch of >= 2 items")
